@@ -45,8 +45,13 @@ def mk_reaction(spec, num):
 
 
 def mk_rsys(c):
-    from chempy import ReactionSystem
-    return ReactionSystem([mk_reaction(s, c['num']) for s in c['rxns']], list(c['subst']), checks=())
+    """substances registered under their keys; `alias` = {key: Substance.name} for substances whose name differs from the key"""
+    from chempy import ReactionSystem, Substance
+    alias = dict(c.get('alias') or [])
+    if not alias:
+        return ReactionSystem([mk_reaction(s, c['num']) for s in c['rxns']], list(c['subst']), checks=())
+    subs = OrderedDict((k, Substance(alias.get(k, k))) for k in c['subst'])
+    return ReactionSystem([mk_reaction(s, c['num']) for s in c['rxns']], subs, checks=())
 
 
 def cstr_pair(c):
@@ -57,7 +62,7 @@ def run_builder(c, rsys=None, builder=None, include_params=None, subs=None):
     """-> (odesys, extra) of the real builder for the configuration of the case (exceptions propagate)"""
     from chempy.kinetics.ode import get_odesys, _create_odesys
     from chempy.util._expr import Constant
-    rsys = rsys or mk_rsys(c)
+    rsys = rsys if rsys is not None else mk_rsys(c)
     builder = builder or c['builder']
     if builder == 'get':
         ip = c['include_params'] if include_params is None else include_params
@@ -294,6 +299,92 @@ def clean(c):
     return True
 
 
+# ---- histories over ONE ReactionSystem object --------------------------------------------------------
+def live_param(p):
+    """Reaction.param as it is NOW, in case form"""
+    from chempy.kinetics.rates import MassAction
+    from chempy.util._expr import Symbol
+    if isinstance(p, str):
+        return {'kind': 'key', 'uk': p}
+    if isinstance(p, MassAction):
+        (arg,) = p.args
+        if isinstance(arg, Symbol):
+            return {'kind': 'sym', 'uk': arg.unique_keys[0]}
+        if p.unique_keys:
+            return {'kind': 'named', 'uk': p.unique_keys[0], 'k': rat_json(kg.to_frac(arg))}
+        return {'kind': 'ma', 'k': rat_json(kg.to_frac(arg))}
+    return {'kind': 'raw', 'k': rat_json(kg.to_frac(p))}
+
+
+def live_state(rsys):
+    """the public state of the system as it is NOW: substance order, stoichiometry dicts and parameters"""
+    rx = []
+    for r in rsys.rxns:
+        rx.append({'reac': [[k, int(v)] for k, v in r.reac.items()], 'prod': [[k, int(v)] for k, v in r.prod.items()],
+                   'inact_reac': [[k, int(v)] for k, v in r.inact_reac.items()],
+                   'inact_prod': [[k, int(v)] for k, v in r.inact_prod.items()], 'param': live_param(r.param)})
+    return {'subst': list(rsys.substances), 'rxns': rx}
+
+
+def same_state(pure, live):
+    def norm(p):
+        q = dict(p)
+        if 'k' in q:
+            q['k'] = rat_json(kg.frac(q['k']))
+        return q
+    return pure['subst'] == live['subst'] and len(pure['rxns']) == len(live['rxns']) and all(
+        norm(a['param']) == norm(b['param']) and all(dict(map(tuple, a[x])) == dict(map(tuple, b[x])) for x in PARTS)
+        for a, b in zip(pure['rxns'], live['rxns']))
+
+
+def apply_pure(state, st):
+    do = st['do']
+    if do == 'set_param':
+        state['rxns'][st['i']] = dict(state['rxns'][st['i']], param=st['param'])
+    elif do == 'replace_rxn':
+        state['rxns'][st['i']] = dict(st['rxn'])
+    elif do == 'append':
+        state['rxns'].append(dict(st['rxn']))
+    elif do == 'delete':
+        del state['rxns'][st['i']]
+    elif do == 'permute_rxns':
+        state['rxns'] = [state['rxns'][i] for i in st['perm']]
+    elif do == 'sort_substances':
+        state['subst'] = sorted(state['subst'])
+    else:
+        raise ValueError(do)
+
+
+def apply_real(rsys, st, num):
+    """the same mutation through the public attributes of the SAME objects"""
+    do = st['do']
+    if do == 'set_param':
+        rsys.rxns[st['i']].param = mk_param(st['param'], num)
+    elif do == 'replace_rxn':
+        rsys.rxns[st['i']] = mk_reaction(st['rxn'], num)
+    elif do == 'append':
+        if st.get('via') == 'iadd':
+            rsys += [mk_reaction(st['rxn'], num)]
+        else:
+            rsys.rxns.append(mk_reaction(st['rxn'], num))
+    elif do == 'delete':
+        del rsys.rxns[st['i']]
+    elif do == 'permute_rxns':
+        rsys.rxns[:] = [rsys.rxns[i] for i in st['perm']]
+    elif do == 'sort_substances':
+        rsys.sort_substances_inplace()
+    else:
+        raise ValueError(do)
+    return rsys
+
+
+def single_of(state, st, num):
+    """the build case for the current state"""
+    c = {k: v for k, v in st.items() if k != 'do'}
+    c.update(op='build', subst=list(state['subst']), rxns=[dict(r, ordered=True) for r in state['rxns']], num=num)
+    return c                                   # `alias` is irrelevant here: histories run on the live object
+
+
 class C04(Property):
     pid = 'C04'
     title = ('the right-hand side generated by get_odesys / _create_odesys is, as a polynomial identity in concentrations and free '
@@ -308,7 +399,9 @@ class C04(Property):
     rule = ('random reaction systems (1-8/12 substances, 0-6/12 reactions, coefficients 0-3, catalysts, inactive parts, duplicated '
             'reactions, substances in no reaction), each rate parameter one of: plain number, MassAction([k]), MassAction([k], '
             'unique_keys=[uk]), string key, MassAction([Symbol(uk)]); unique keys drawn from a pool with shared prefixes (k1, k10, k1_), '
-            'sometimes shared between reactions; constants int / Fraction / sympy.Rational; configurations: get_odesys with '
+            'sometimes shared between reactions; constants int / Fraction / sympy.Rational; 15 % histories over ONE ReactionSystem '
+            'object (build, then set rxn.param / replace / append (list, +=) / delete / permute reactions / sort_substances_inplace, '
+            'build again with either entry point and any configuration, expected value from the CURRENT public state); configurations: get_odesys with '
             'include_params True/False x passive substitutions (subset of keys, CSTR keys, unknown key) x cstr, _create_odesys with '
             'cstr and parameter_expressions={key: Constant}; name-clash and reserved-name streams; a rational evaluation point per '
             'case. A case is non-trivial when it is a distinct JSON value with at least one reaction.')
@@ -321,7 +414,8 @@ class C04(Property):
                    'compared as a set, the registered unique keys are compared in registration order',
                    'symbols are identified by name (what _create_odesys does; get_odesys rejects a name shared by a substance and a parameter)',
                    'a system that reads variables[\'time\'] is outside the model (reported, never accepted as agreement)',
-                   'substance key = substance name (rsys built from a list of keys)',
+                   'dependent variables are named by the KEYS of rsys.substances (30 % of the cases register substances under alias keys, '
+                   'key != Substance.name); Substance.name only reaches latex_names, which is not modelled',
                    'f_cb / rate_exprs_cb are lambdified float code: compared at rational points with relative tolerance 1e-9 '
                    '(absolute 1e-12 x sum of |terms| where the exact value cancels)')
     clauses_without_theorem = (
@@ -336,6 +430,9 @@ class C04(Property):
         'the order of the CSTR keys inside param_names (a Python set): compared as a set, no theorem',
         'linear_invariants handed to SymbolicSys (C05) and variables[\'time\']: not part of the model',
         'when _create_odesys accepts: inversion lemma only (buildRhs\'_ok), no success characterisation like get_odesys_accepts',
+        'statelessness across histories (build, mutate rxn.param / rsys.rxns / substance order on the same objects, build again): the '
+        'model is a pure function of the current public state; that the real builders are too is decided by history '
+        'correspondence + oracle only (15 % of the cases, corpus/C04/histories.json)',
         'the link model <-> Python (both builders, all rejections) is translation validation per generated system, not a theorem')
     anchors = (('chempy/kinetics/ode.py', 'get_odesys'), ('chempy/kinetics/ode.py', '_create_odesys'),
                ('chempy/chemistry.py', 'Reaction.rate_expr'), ('chempy/chemistry.py', 'Reaction.rate'),
@@ -347,7 +444,87 @@ class C04(Property):
 
     # ---------------------------------------------------------------------------------------
     def generate(self, rng, n, tier):
-        return [self._gen_one(rng, tier) for _ in range(n)]
+        return [self._history(rng, tier) if rng.random() < 0.15 else self._gen_one(rng, tier) for _ in range(n)]
+
+    def _rand_param(self, rng, num, builder_mix, used):
+        kind = rng.choice(['raw', 'ma', 'named', 'named', 'key', 'sym'])
+        p = {'kind': kind}
+        if kind in ('raw', 'ma', 'named'):
+            k = kg.rand_rat(rng, num)
+            p['k'] = k if kg.frac(k) != 0 else 1
+        if kind in ('named', 'key', 'sym'):
+            free = [k for k in KEYPOOL if k not in used]
+            p['uk'] = rng.choice(free) if free else 'q%d' % len(used)
+            used.append(p['uk'])
+        return p
+
+    def _history(self, rng, tier):
+        """build / mutate the public state of the SAME objects / build again, with every entry point and configuration"""
+        num = rng.choice(['Fraction', 'Rational', 'int', 'Fraction'])
+        sysd = kg.rand_system(rng, tier, num=num, smax=4, rmax=3)
+        while not sysd['rxns']:
+            sysd = kg.rand_system(rng, tier, num=num, smax=4, rmax=3)
+        part = [k for k in sysd['subst'] if any(k in kg.spec_keys(r) for r in sysd['rxns'])]
+        subst = part or sysd['subst'][:1]
+        used = []
+        rxns = []
+        for r in sysd['rxns']:
+            r = dict(r, ordered=True)
+            r['param'] = self._rand_param(rng, num, None, used)
+            rxns.append(r)
+        state = {'subst': list(subst), 'rxns': [dict(r) for r in rxns]}
+        cmax = 3
+
+        def build():
+            st = {'do': 'build', 'builder': rng.choice(['get', 'get', 'create']), 'cstr': rng.random() < 0.4,
+                  'include_params': rng.random() < 0.5, 'subs': [], 'param_exprs': []}
+            uks = list(dict.fromkeys(r['param']['uk'] for r in state['rxns'] if 'uk' in r['param']))
+            valueless = list(dict.fromkeys(r['param']['uk'] for r in state['rxns'] if r['param']['kind'] in ('key', 'sym')))
+            symk = set(r['param']['uk'] for r in state['rxns'] if r['param']['kind'] == 'sym')
+            if st['builder'] == 'get':
+                if st['include_params'] and rng.random() < 0.9:
+                    st['subs'] = [[k, kg.rand_rat(rng, num)] for k in valueless]
+                for k in uks + (['feedratio'] if st['cstr'] else []):
+                    if rng.random() < 0.15 and k not in [x[0] for x in st['subs']]:
+                        st['subs'].append([k, kg.rand_rat(rng, num)])
+            else:
+                st['param_exprs'] = [[k, kg.rand_rat(rng, num)] for k in uks if k not in symk and rng.random() < 0.15]
+            syms = list(state['subst']) + KEYPOOL + ['q%d' % i for i in range(12)] + ['feedratio'] + ['fc_' + s for s in state['subst']]
+            st['point'] = [[k, rat_json(Fraction(rng.randint(-3, 9), rng.choice([1, 1, 2, 3])))] for k in dict.fromkeys(syms)]
+            return st
+
+        steps = [build()]
+        for _ in range(rng.randint(1, 4)):
+            nr = len(state['rxns'])
+            m = rng.random()
+            if m < 0.4:
+                st = {'do': 'set_param', 'i': rng.randrange(nr)}
+                old = state['rxns'][st['i']]['param']
+                if rng.random() < 0.6 and old['kind'] in ('raw', 'ma', 'named'):          # a parameter study: same kind, new constant
+                    st['param'] = dict(old, k=rat_json(kg.frac(old['k']) + rng.randint(1, 5)))
+                else:
+                    st['param'] = self._rand_param(rng, num, None, used)
+            elif m < 0.55:
+                st = {'do': 'replace_rxn', 'i': rng.randrange(nr), 'rxn': dict(kg.rand_reaction(rng, state['subst'], num, cmax), ordered=True)}
+                st['rxn']['param'] = self._rand_param(rng, num, None, used)
+            elif m < 0.7:
+                st = {'do': 'append', 'rxn': dict(kg.rand_reaction(rng, state['subst'], num, cmax), ordered=True), 'via': rng.choice(['list', 'iadd'])}
+                st['rxn']['param'] = self._rand_param(rng, num, None, used)
+            elif m < 0.76 and nr > 1:
+                st = {'do': 'delete', 'i': rng.randrange(nr)}
+            elif m < 0.88:
+                st = {'do': 'sort_substances'}
+            elif nr > 1:
+                perm = list(range(nr))
+                rng.shuffle(perm)
+                st = {'do': 'permute_rxns', 'perm': perm}
+            else:
+                st = {'do': 'sort_substances'}
+            apply_pure(state, st)
+            steps.append(st)
+            for _ in range(rng.randint(1, 2)):
+                steps.append(build())
+        return {'op': 'history', 'subst': list(subst), 'rxns': rxns, 'num': num, 'steps': steps, 'alias': self._alias(rng, list(subst))}
 
     def _gen_one(self, rng, tier):
         smax = 5 if tier == 'quick' else 8
@@ -423,10 +600,27 @@ class C04(Property):
         # evaluation point: every symbol that can occur
         syms = list(subst) + uks + ['feedratio'] + ['fc_' + s for s in subst]
         c['point'] = [[k, rat_json(Fraction(rng.randint(-3, 9), rng.choice([1, 1, 2, 3])))] for k in dict.fromkeys(syms)]
+        c['alias'] = self._alias(rng, subst)
         return c
+
+    def _alias(self, rng, subst):
+        """a fraction of the substances is registered under a key that is not its Substance.name (names may even repeat or
+        coincide with another key: only the keys matter)"""
+        if rng.random() > 0.3:
+            return []
+        return [[k, rng.choice(['name_of_' + k, 'water', subst[0], 'k1', 'X'])] for k in subst if rng.random() < 0.6]
 
     # ---------------------------------------------------------------------------------------
     def model_case(self, c):
+        if c.get('op') == 'history':
+            state = {'subst': list(c['subst']), 'rxns': [dict(r) for r in c['rxns']]}
+            msteps = []
+            for st in c['steps']:
+                if st['do'] == 'build':
+                    msteps.append(self.model_case(single_of(state, st, c['num'])))
+                else:
+                    apply_pure(state, st)
+            return {'op': 'history', 'steps': msteps, 'orig': c}
         if c.get('op') != 'build':
             return None
         m = dict(c)
@@ -439,9 +633,20 @@ class C04(Property):
         m['py_nums'] = c['num'] != 'Rational'
         return m
 
-    def impl(self, c):
+    def impl(self, c, rsys=None):
+        if c.get('op') == 'history':
+            o = c['orig']
+            live = mk_rsys(o)                                  # ONE system object for the whole history (o carries `alias`)
+            outs, j = [], 0
+            for st in o['steps']:
+                if st['do'] == 'build':
+                    outs.append(self.impl(c['steps'][j], live))
+                    j += 1
+                else:
+                    live = apply_real(live, st, o['num'])
+            return json.dumps(outs)
         try:
-            odesys, extra = run_builder(c)
+            odesys, extra = run_builder(c, rsys)
         except Exception as e:
             return exc_name(e)
         m = sym_names(odesys)
@@ -456,6 +661,9 @@ class C04(Property):
         return json.dumps(out)
 
     def same(self, c, io, mo):
+        if c.get('op') == 'history':
+            a, b = json.loads(io), json.loads(mo)
+            return len(a) == len(b) == len(c['steps']) and all(self.same(m, x, y) for m, x, y in zip(c['steps'], a, b))
         if not io.startswith('{') or not mo.startswith('{'):
             return io == mo
         a, b = json.loads(io), json.loads(mo)
@@ -482,13 +690,29 @@ class C04(Property):
                                                   for x, y, p in zip(a['f'], b['f'], b['exprs']))
 
     # ---------------------------------------------------------------------------------------
-    def oracle(self, c):
-        """N^T r with hand-made monomials (sympy) against odesys.exprs; names; parameter names; binding; the other builder"""
+    def oracle(self, c, rsys=None):
+        """N^T r with hand-made monomials (sympy) against odesys.exprs; names; parameter names; binding; the other builder.
+        History: after every mutation of the SAME objects, every build must be N^T r of the objects' CURRENT public state."""
         import sympy
+        if c.get('op') == 'history':
+            live = mk_rsys(c)
+            state = {'subst': list(c['subst']), 'rxns': [dict(r) for r in c['rxns']]}
+            for n, st in enumerate(c['steps']):
+                if st['do'] != 'build':
+                    live = apply_real(live, st, c['num'])
+                    apply_pure(state, st)
+                    continue
+                where = 'step %d (%s build after %s)' % (n, st['builder'], [x['do'] for x in c['steps'][:n] if x['do'] != 'build'])
+                if not same_state(state, live_state(live)):
+                    return where + ': the public state of the system is not what the mutations should have produced'
+                f = self.oracle(single_of(state, st, c['num']), live)
+                if f is not None:
+                    return where + ': ' + f + ' [expected from the CURRENT reactions, constants and substance order]'
+            return None
         if c.get('op') != 'build':
             return None
         want_coeffs = expected_free(c)
-        rsys = mk_rsys(c)
+        rsys = rsys if rsys is not None else mk_rsys(c)
         try:
             odesys, extra = run_builder(c, rsys)
         except Exception as e:
@@ -641,13 +865,15 @@ class C04(Property):
         return None
 
     def classify(self, c):
+        if c.get('op') == 'history':
+            return 'history:' + '+'.join(sorted({x['do'] for x in c['steps'] if x['do'] != 'build'})) + (':alias' if c.get('alias') else '')
         if c.get('op') != 'build':
             return str(c.get('op'))
         kinds = ''.join(sorted(set(s['param']['kind'][0] for s in c['rxns'])))
         cfg = c['builder'] + (':inl' if c['include_params'] else ':free') * (c['builder'] == 'get') + \
             (':cstr' if c['cstr'] else '') + (':subs' if c['subs'] or c['param_exprs'] else '')
         return '%s:%s:%s:nr%d%s' % (cfg, 'clean' if clean(c) else 'edge', kinds or '-', min(len(c['rxns']), 4),
-                                    ':shared' if shared_inconsistent(c) else '')
+                                    ':shared' if shared_inconsistent(c) else '') + (':alias' if c.get('alias') else '')
 
     def nontrivial(self, c):
         return bool(c.get('rxns'))
